@@ -590,16 +590,19 @@ func (nl *NodeList) Equal(nl2 *NodeList) bool {
 		return false
 	}
 
-	// Compare the nodes
-	nlNodes := map[string]string{}
-	nl2Nodes := map[string]string{}
+	// Compare the nodes. The checksum covers the node identifier, nodes are
+	// compared as a sorted list as identifiers may be repeated in a list.
+	nlNodes := []string{}
+	nl2Nodes := []string{}
 	for _, n := range nl.Nodes {
-		nlNodes[n.Id] = n.Checksum()
+		nlNodes = append(nlNodes, n.Checksum())
 	}
+	sort.Strings(nlNodes)
 
 	for _, n := range nl2.Nodes {
-		nl2Nodes[n.Id] = n.Checksum()
+		nl2Nodes = append(nl2Nodes, n.Checksum())
 	}
+	sort.Strings(nl2Nodes)
 
 	return cmp.Equal(nlNodes, nl2Nodes)
 }
